@@ -260,12 +260,20 @@ impl Out {
 pub fn coq_outs(o: &[Out]) -> String { coq_list(o, |x| x.coq()) }
 pub fn coq_zs(o: &[i64]) -> String { coq_list(o, |x| coq_z(x)) }
 
-fn icmd(c: InterfaceCommand<AnyMessage>) -> Out {
+fn icmd_with(c: InterfaceCommand<AnyMessage>, inv: fn(&PeerId) -> i64) -> Out {
     match c {
-        InterfaceCommand::Connect(p) => Out::Connect(pid_inv(&p)),
-        InterfaceCommand::Disconnect(p) => Out::Disconnect(pid_inv(&p)),
-        InterfaceCommand::Send(p, m) => Out::Send(pid_inv(&p), Msg::from_any(&m)),
+        InterfaceCommand::Connect(p) => Out::Connect(inv(&p)),
+        InterfaceCommand::Disconnect(p) => Out::Disconnect(inv(&p)),
+        InterfaceCommand::Send(p, m) => Out::Send(inv(&p), Msg::from_any(&m)),
     }
+}
+fn icmd(c: InterfaceCommand<AnyMessage>) -> Out { icmd_with(c, pid_inv) }
+/// responder-side peer ids: 16 ports per host, so that the per-IP limit is reachable
+pub fn rpid(i: i64) -> PeerId { PeerId { host: format!("10.1.0.{}", i / 16), port: 4000 + (i % 16) as u16 } }
+pub fn rpid_inv(p: &PeerId) -> i64 {
+    let parts: Vec<&str> = p.host.split('.').collect();
+    if parts.len() == 4 { if let Ok(h) = parts[3].parse::<i64>() { let i = h * 16 + (p.port as i64 - 4000); if i >= 0 && rpid(i) == *p { return i; } } }
+    -1
 }
 fn ln_notif(n: &ln::Notification) -> (i64, i64) {
     match n {
@@ -295,18 +303,18 @@ pub fn init_out(o: BehaviorOutput<InitiatorBehavior>) -> Out {
 }
 pub fn resp_out(o: BehaviorOutput<ResponderBehavior>) -> Out {
     match o {
-        BehaviorOutput::InterfaceCommand(c) => icmd(c),
+        BehaviorOutput::InterfaceCommand(c) => icmd_with(c, rpid_inv),
         BehaviorOutput::ExternalEvent(e) => match e {
-            ResponderEvent::PeerInitialized(p, (v, _)) => Out::Event(pid_inv(&p), 11, vec![v as i64]),
-            ResponderEvent::PeerDisconnected(p) => Out::Event(pid_inv(&p), 12, vec![]),
-            ResponderEvent::IntersectionRequested(p, pts) => Out::Event(pid_inv(&p), 13, vec![pts.first().map(point_inv).unwrap_or(-1)]),
-            ResponderEvent::NextHeaderRequested(p) => Out::Event(pid_inv(&p), 14, vec![]),
-            ResponderEvent::BlockRangeRequested(p, (a, _)) => Out::Event(pid_inv(&p), 15, vec![point_inv(&a)]),
-            ResponderEvent::PeersRequested(p, n) => Out::Event(pid_inv(&p), 16, vec![n as i64]),
-            ResponderEvent::TxReceived(p, b) => Out::Event(pid_inv(&p), 17, vec![b.1.first().map(|x| *x as i64).unwrap_or(-1)]),
-            ResponderEvent::EbNotificationRequested(p) => Out::Event(pid_inv(&p), 18, vec![]),
-            ResponderEvent::EbRequested(p, eb) => Out::Event(pid_inv(&p), 19, vec![point_inv(&eb)]),
-            ResponderEvent::EbTxsRequested(p, eb, _) => Out::Event(pid_inv(&p), 20, vec![point_inv(&eb)]),
+            ResponderEvent::PeerInitialized(p, (v, _)) => Out::Event(rpid_inv(&p), 11, vec![v as i64]),
+            ResponderEvent::PeerDisconnected(p) => Out::Event(rpid_inv(&p), 12, vec![]),
+            ResponderEvent::IntersectionRequested(p, pts) => Out::Event(rpid_inv(&p), 13, vec![pts.first().map(point_inv).unwrap_or(-1)]),
+            ResponderEvent::NextHeaderRequested(p) => Out::Event(rpid_inv(&p), 14, vec![]),
+            ResponderEvent::BlockRangeRequested(p, (a, _)) => Out::Event(rpid_inv(&p), 15, vec![point_inv(&a)]),
+            ResponderEvent::PeersRequested(p, n) => Out::Event(rpid_inv(&p), 16, vec![n as i64]),
+            ResponderEvent::TxReceived(p, b) => Out::Event(rpid_inv(&p), 17, vec![b.1.first().map(|x| *x as i64).unwrap_or(-1)]),
+            ResponderEvent::EbNotificationRequested(p) => Out::Event(rpid_inv(&p), 18, vec![]),
+            ResponderEvent::EbRequested(p, eb) => Out::Event(rpid_inv(&p), 19, vec![point_inv(&eb)]),
+            ResponderEvent::EbTxsRequested(p, eb, _) => Out::Event(rpid_inv(&p), 20, vec![point_inv(&eb)]),
         },
     }
 }
@@ -595,4 +603,153 @@ pub fn gen_init_event(rng: &mut Rng, d: &InitDriver, npeers: i64) -> Ev {
         5 => Ev::FetchEbTxs(anyp(rng), rng.below(5) as i64),
         _ => Ev::SendTx(anyp(rng)),
     }
+}
+
+
+// ---------------------------------------------------------------- responder
+use pallas_network2::behavior::responder::connection::{ConnectionResponder, ConnectionResponderConfig};
+use pallas_network2::behavior::responder::handshake::{HandshakeResponder, HandshakeResponderConfig};
+
+#[derive(Clone, Debug)]
+pub struct RCfg { pub max_err: u32, pub max_ip: usize, pub vers: Vec<(i64, i64)> }
+impl RCfg {
+    pub fn coq(&self) -> String { format!("({},{},{})", self.max_err, self.max_ip, coq_list(&self.vers, |(a, b)| format!("({},{})", coq_z(a), coq_z(b)))) }
+}
+pub fn new_responder(c: &RCfg) -> ResponderBehavior {
+    let mut values = HashMap::new();
+    for (v, m) in &c.vers { values.insert(*v as u64, vdata(*m as u64, 1)); }
+    ResponderBehavior {
+        connection: ConnectionResponder::new(ConnectionResponderConfig { max_error_count: c.max_err, max_connections_per_ip: c.max_ip }),
+        handshake: HandshakeResponder::new(HandshakeResponderConfig { supported_version: hs::VersionTable { values } }),
+        ..Default::default()
+    }
+}
+
+#[derive(Clone, Debug, PartialEq)]
+pub enum RProv { Intersection(i64), Header(i64), Rollback(i64), Blocks(Vec<i64>), Peers(Vec<i64>), EbAnn(i64), EbOffer(i64), EbTxsOffer(i64), Votes(i64), Eb(i64), EbTxs(i64) }
+impl RProv {
+    pub fn msgs(&self) -> Vec<Msg> {
+        match self {
+            RProv::Intersection(x) => vec![CsIntersectFound(*x)], RProv::Header(h) => vec![CsRollForward(*h)], RProv::Rollback(p) => vec![CsRollBackward(*p)],
+            RProv::Blocks(bs) => { let mut v = vec![BfStartBatch]; for b in bs { v.push(BfBlock(*b)); } v.push(BfBatchDone); v }
+            RProv::Peers(l) => vec![PsPeers(l.clone())], RProv::EbAnn(x) => vec![LnAnnouncement(*x)], RProv::EbOffer(x) => vec![LnOffer(*x)],
+            RProv::EbTxsOffer(x) => vec![LnTxsOffer(*x)], RProv::Votes(x) => vec![LnVotes(*x)], RProv::Eb(x) => vec![LfBlock(*x)], RProv::EbTxs(x) => vec![LfBlockTxs(*x)],
+        }
+    }
+}
+#[derive(Clone, Debug, PartialEq)]
+pub enum REv { Hk(bool), Provide(i64, RProv), Ban(i64), DisconnectPeer(i64), Connected(i64), Disconnected(i64), Error(i64), Recv(i64, Vec<Msg>), Sent(i64, Msg) }
+impl REv {
+    pub fn coq(&self, order: &[i64]) -> String {
+        match self {
+            REv::Hk(_) => format!("(RHousekeeping {})", coq_zs(order)),
+            REv::Provide(p, pr) => format!("(RProvide {} {})", coq_z(p), coq_list(&pr.msgs(), |m| m.coq())),
+            REv::Ban(p) => format!("(RBan {})", coq_z(p)),
+            REv::DisconnectPeer(p) => format!("(RDisconnectPeer {})", coq_z(p)),
+            REv::Connected(p) => format!("(RConnected {})", coq_z(p)),
+            REv::Disconnected(p) => format!("(RDisconnected {})", coq_z(p)),
+            REv::Error(p) => format!("(RError {})", coq_z(p)),
+            REv::Recv(p, ms) => format!("(RRecv {} {})", coq_z(p), coq_list(ms, |m| m.coq())),
+            REv::Sent(p, m) => format!("(RSent {} {})", coq_z(p), m.coq()),
+        }
+    }
+    pub fn short(&self) -> String { format!("{:?}", self) }
+}
+pub fn apply_resp(b: &mut ResponderBehavior, e: &REv) {
+    use pallas_network2::Behavior;
+    match e {
+        REv::Hk(false) => b.execute(ResponderCommand::Housekeeping),
+        REv::Hk(true) => b.handle_io(InterfaceEvent::Idle),
+        REv::Provide(p, pr) => b.execute(match pr {
+            RProv::Intersection(x) => ResponderCommand::ProvideIntersection(rpid(*p), point(*x), tip()),
+            RProv::Header(h) => ResponderCommand::ProvideHeader(rpid(*p), cs::HeaderContent { variant: 1, byron_prefix: None, cbor: vec![*h as u8] }, tip()),
+            RProv::Rollback(x) => ResponderCommand::ProvideRollback(rpid(*p), point(*x), tip()),
+            RProv::Blocks(bs) => ResponderCommand::ProvideBlocks(rpid(*p), bs.iter().map(|b| vec![*b as u8]).collect()),
+            RProv::Peers(l) => ResponderCommand::ProvidePeers(rpid(*p), l.iter().map(|i| addr(*i)).collect()),
+            RProv::EbAnn(x) => ResponderCommand::ProvideEbAnnouncement(rpid(*p), cbor1(*x)),
+            RProv::EbOffer(x) => ResponderCommand::ProvideEbOffer(rpid(*p), point(*x), 7),
+            RProv::EbTxsOffer(x) => ResponderCommand::ProvideEbTxsOffer(rpid(*p), point(*x)),
+            RProv::Votes(x) => ResponderCommand::ProvideVotes(rpid(*p), vec![cbor1(*x)]),
+            RProv::Eb(x) => ResponderCommand::ProvideEb(rpid(*p), cbor1(*x)),
+            RProv::EbTxs(x) => ResponderCommand::ProvideEbTxs(rpid(*p), point(*x), lf::Bitmaps::default(), vec![cbor1(*x)]),
+        }),
+        REv::Ban(p) => b.execute(ResponderCommand::BanPeer(rpid(*p))),
+        REv::DisconnectPeer(p) => b.execute(ResponderCommand::DisconnectPeer(rpid(*p))),
+        REv::Connected(p) => b.handle_io(InterfaceEvent::Connected(rpid(*p))),
+        REv::Disconnected(p) => b.handle_io(InterfaceEvent::Disconnected(rpid(*p))),
+        REv::Error(p) => b.handle_io(InterfaceEvent::Error(rpid(*p), InterfaceError::Other("err".into()))),
+        REv::Recv(p, ms) => b.handle_io(InterfaceEvent::Recv(rpid(*p), ms.iter().map(|m| m.to_any()).collect())),
+        REv::Sent(p, m) => b.handle_io(InterfaceEvent::Sent(rpid(*p), m.to_any())),
+    }
+}
+pub struct RStepObs { pub ev: REv, pub order: Vec<i64>, pub outs: Vec<Out>, pub panic: Option<String> }
+pub struct RespDriver { pub b: ResponderBehavior, pub dead: bool }
+impl RespDriver {
+    pub fn new(c: &RCfg) -> Self { RespDriver { b: new_responder(c), dead: false } }
+    pub fn step(&mut self, ev: REv) -> RStepObs {
+        let order: Vec<i64> = if matches!(ev, REv::Hk(_)) { self.b.peers.keys().map(rpid_inv).collect() } else { vec![] };
+        let b = &mut self.b;
+        let r = guard_total(|| { apply_resp(b, &ev); drain_resp(b) });
+        let (outs, panic) = match r {
+            Out_::Ok(o) => (o, None),
+            Out_::Panic(m) => { self.dead = true; (vec![], Some(m)) }
+            Out_::Err(e) => { self.dead = true; (vec![], Some(e)) }
+        };
+        RStepObs { ev, order, outs, panic }
+    }
+    pub fn snapshot(&self) -> Vec<(i64, Vec<i64>)> {
+        let mut v: Vec<(i64, Vec<i64>)> = self.b.peers.iter().map(|(p, s)| (rpid_inv(p), resp_peer_snapshot(s))).collect();
+        v.sort();
+        v
+    }
+    pub fn tracked(&self) -> Vec<i64> { self.snapshot().into_iter().map(|x| x.0).collect() }
+}
+pub fn coq_snap(v: &[(i64, Vec<i64>)]) -> String { coq_list(v, |(p, x)| format!("({},{})", coq_z(p), coq_zs(x))) }
+
+/// a conformant client message for a responder peer in the given protocol-state classes
+pub fn gen_resp_event(rng: &mut Rng, d: &RespDriver, npeers: i64) -> REv {
+    let anyp = |rng: &mut Rng| rng.below(npeers as u64) as i64;
+    let snap = d.snapshot();
+    let tracked: Vec<i64> = snap.iter().map(|x| x.0).collect();
+    let somep = |rng: &mut Rng| if !tracked.is_empty() && rng.chance(4, 5) { *rng.pick(&tracked) } else { rng.below(npeers as u64) as i64 };
+    let x = rng.below(6) as i64;
+    let r = rng.below(100);
+    if r < 12 { return REv::Hk(rng.chance(1, 3)); }
+    if r < 26 { return REv::Connected(anyp(rng)); }
+    if r < 31 { return REv::Disconnected(somep(rng)); }
+    if r < 36 { return REv::Error(somep(rng)); }
+    if r < 38 { return REv::Ban(somep(rng)); }
+    if r < 40 { return REv::DisconnectPeer(somep(rng)); }
+    if r < 62 {
+        // plausible client traffic for a tracked peer
+        if !snap.is_empty() {
+            let (p, v) = rng.pick(&snap).clone();
+            // v = [conn, hs, ka, ps, bf, cs, tx, ln, lf, viol, errc]
+            if v[1] == 0 { return REv::Recv(p, vec![HsPropose(match rng.below(5) { 0 => vec![(13, 2)], 1 => vec![(11, MAINNET_MAGIC as i64)], 2 => vec![(13, MAINNET_MAGIC as i64), (15, MAINNET_MAGIC as i64)], 3 => vec![(7, 1), (13, MAINNET_MAGIC as i64), (14, 5)], _ => vec![(13, MAINNET_MAGIC as i64)] })]); }
+            let m = match rng.below(9) {
+                0 => KaKeepAlive(*rng.pick(&[0, 7, 65535])), 1 => CsFindIntersect(x), 2 => CsRequestNext, 3 => BfRequestRange(x), 4 => PsRequest(*rng.pick(&[0, 5, 255])),
+                5 => TxInit, 6 => LnRequestNext, 7 => LfBlockRequest(x), _ => LfBlockTxsRequest(x),
+            };
+            return REv::Recv(p, vec![m]);
+        }
+        return REv::Connected(anyp(rng));
+    }
+    if r < 72 {
+        // confirm a plausible server message
+        let p = somep(rng);
+        let m = match rng.below(12) {
+            0 => HsAccept(13, 1), 1 => KaResponse(7), 2 => CsIntersectFound(x), 3 => CsRollForward(x), 4 => BfStartBatch, 5 => BfBatchDone, 6 => PsPeers(vec![]),
+            7 => TxInit, 8 => TxRequestTxIds, 9 => TxRequestTxs, 10 => LnOffer(x), _ => LfBlock(x),
+        };
+        return REv::Sent(p, m);
+    }
+    if r < 80 {
+        let pr = match rng.below(11) {
+            0 => RProv::Intersection(x), 1 => RProv::Header(x), 2 => RProv::Rollback(x), 3 => RProv::Blocks((0..rng.below(3)).map(|i| i as i64).collect()),
+            4 => RProv::Peers(vec![1, 2]), 5 => RProv::EbAnn(x), 6 => RProv::EbOffer(x), 7 => RProv::EbTxsOffer(x), 8 => RProv::Votes(x), 9 => RProv::Eb(x), _ => RProv::EbTxs(x),
+        };
+        return REv::Provide(somep(rng), pr);
+    }
+    if r < 92 { let n = 1 + rng.below(3); return REv::Recv(somep(rng), (0..n).map(|_| any_msg(rng, 8)).collect()); }
+    REv::Sent(somep(rng), any_msg(rng, 8))
 }
